@@ -179,8 +179,8 @@ def gen_cases(rng, tier):
                 cases.append({'sp': sp, 't': t0})
         else:
             c = {'sp': 'allsp', 't': t0}   # every date spelling of this day in one case
-            if n % 8:
-                c['nomodel'] = 1           # oracle on every day; the Coq model on every 8th day
+            if n % 32:
+                c['nomodel'] = 1           # oracle on every day; the Coq model on every 32nd day
             cases.append(c)
         if tier == 'thorough' or i % 3 == 0:
             cases.append({'sp': 'cal', 'n': n})
